@@ -19,8 +19,8 @@ RULE = ("case = (RTL input dict with grouped multi-unit inputs / monotone and un
         "random ensemble (features, rank, count, seed) | Crystals (features, rank, count, seed, assigned prefitting kernels: random / huge / near-constant); "
         "non-trivial = more than one way to arrange (features > rank); distinct by digest of the arguments")
 MIN_EVENTS = {
-    "quick": {"RTL/structure": 300, "RTL/monotone-wiring": 300, "random-ensemble/structure": 140, "crystals/pair-cover": 24, "crystals/structure": 20},
-    "thorough": {"RTL/structure": 25000, "RTL/monotone-wiring": 25000, "random-ensemble/structure": 12000, "crystals/pair-cover": 1000, "crystals/structure": 800},
+    "quick": {"arrangement/same-in-every-interpreter": 64, "RTL/structure": 300, "RTL/monotone-wiring": 300, "random-ensemble/structure": 140, "crystals/pair-cover": 24, "crystals/structure": 20},
+    "thorough": {"arrangement/same-in-every-interpreter": 2048, "RTL/structure": 25000, "RTL/monotone-wiring": 25000, "random-ensemble/structure": 12000, "crystals/pair-cover": 1000, "crystals/structure": 800},
 }
 ASSUMPTIONS = ["only configurations with enough slots (num_lattices * lattice_rank >= number of features; Crystals: lattice_rank < number of features)",
                "RTL usage counts are checked per flattened input (grouped inputs are flattened as the layer documents)"]
